@@ -81,6 +81,10 @@ def decOps : List String → Option (List Op)
       let p ← p.toNat?
       let ops ← decOps rest
       pure (.reapSelfExited p :: ops)
+  | "lr" :: p :: rest => do
+      let p ← p.toNat?
+      let ops ← decOps rest
+      pure (.lateRemove p :: ops)
   | "start" :: rest => do
       let ops ← decOps rest
       pure (.start :: ops)
@@ -89,11 +93,20 @@ def decOps : List String → Option (List Op)
       pure (.stop :: ops)
   | _ => none
 
+/-- the stated domain of `lateRemove`: the pid is not a live worker when the op arrives -/
+def lateOk (s : State) : List Op → Bool
+  | [] => true
+  | op :: ops =>
+    (match op with
+     | .lateRemove p => (findProc s p).isNone
+     | _ => true) && lateOk (step s op).1 ops
+
 def handle (toks : List String) : String :=
   match toks with
   | b :: p0 :: rest =>
     match b.toNat?, p0.toNat?, decOps rest with
     | some b, some p0, some ops =>
+      if !lateOk (init b p0) ops then "bad-op" else
       let (s, outs) := run (init b p0) ops
       let o := ";".intercalate (outs.map (fun os => ",".intercalate (os.map encOut)))
       s!"{o}|{encDict s.red.pipes}|{encDict s.red.active}|{encBool s.red.running}|{encFdt s.fdt}"
